@@ -1,0 +1,12 @@
+//go:build verif
+
+// Contracts for the verification machinery in /verif (comment-only; compiled only with -tags verif).
+package fixedpoint
+
+// ---- 128-bit fixed point <-> big.Int (C16): the raw scaled integer in two's complement
+//@ func Fix128ToBigInt
+//@   nofail
+//@   ensures[C16] fresh(result) && big(result) == wrap(fix128.Hi * pow2(64) + fix128.Lo, 128, true)
+//@ func UFix128ToBigInt
+//@   nofail
+//@   ensures[C16] fresh(result) && big(result) == value.Hi * pow2(64) + value.Lo
